@@ -52,6 +52,7 @@ type World struct {
 	via, disc string
 	opKey     *modelstore.SignKey
 	ch, other *httphelper.CookieHandler
+	near      *httphelper.CookieHandler
 	party     rp.RelyingParty
 	login     http.Handler
 	callback  http.Handler
@@ -122,7 +123,12 @@ func NewWorld(pkce bool, via, disc string, rng *rand.Rand) *World {
 		disc = "s256"
 	}
 	w := &World{pkce: pkce, via: via, disc: disc, opKey: modelstore.GenKey("rp-fake-op", jose.ES256), attempts: map[string]*attempt{}, byName: map[string]*attempt{}, jar: map[string]map[string]string{"b1": {}, "b2": {}}}
-	w.ch = httphelper.NewCookieHandler(key(1, 32), key(40, 32), httphelper.WithUnsecure())
+	// the relying party's hash key is long (80 bytes); "near" is another key that differs from it in the tail only
+	hk, nk := key(1, 80), key(1, 80)
+	nk[79] ^= 0x55
+	nk[70] ^= 0x0f
+	w.ch = httphelper.NewCookieHandler(hk, key(40, 32), httphelper.WithUnsecure())
+	w.near = httphelper.NewCookieHandler(nk, key(40, 32), httphelper.WithUnsecure())
 	w.other = httphelper.NewCookieHandler(key(90, 32), key(140, 32), httphelper.WithUnsecure())
 	cfg := &oauth2.Config{ClientID: clientID, ClientSecret: "secret", RedirectURL: redirect, Scopes: scopes,
 		Endpoint: oauth2.Endpoint{AuthURL: fakeOP + "/authorize", TokenURL: fakeOP + "/token"}}
@@ -313,6 +319,14 @@ func (w *World) Callback(a M) M {
 		if _, ok := cookies["pkce"]; ok {
 			cookies["pkce"] = w.encode(w.other, "pkce", plainOf("pkce"))
 		}
+	case "nearKey":
+		if _, ok := cookies["state"]; ok {
+			cookies["state"] = w.encode(w.near, "state", plainOf("state"))
+		}
+	case "nearKeyPkce":
+		if _, ok := cookies["pkce"]; ok {
+			cookies["pkce"] = w.encode(w.near, "pkce", plainOf("pkce"))
+		}
 	case "swapNames":
 		s, p := cookies["state"], cookies["pkce"]
 		delete(cookies, "state")
@@ -443,7 +457,7 @@ func Replay(in, out string, seed int64, nRandom, depth int) (lines int, err erro
 			}
 		}
 	}
-	tampers := []string{"asis", "asis", "asis", "dropState", "dropPkce", "otherKey", "swapNames", "truncate", "otherKeyPkce", "replayPkceAsState", "replayPkceAsState"}
+	tampers := []string{"asis", "asis", "asis", "dropState", "dropPkce", "otherKey", "swapNames", "truncate", "otherKeyPkce", "replayPkceAsState", "replayPkceAsState", "nearKey", "nearKeyPkce"}
 	forms := []string{"exact", "exact", "exact", "exact", "prefix", "suffix", "empty"}
 	for i := 0; i < nRandom; i++ {
 		pk := rng.Intn(3) != 0
